@@ -80,24 +80,19 @@ HDR_LOOP_INV = [
 
 FN('try_parse_response', props=['C05', 'C11', 'C20', 'C12', 'C01'], ret='r',
    ensures=[
-       ('C05.complete_parser_exact', 'spec_try_parse_response(httparse::parse_response(input@, N as nat), r)'),
+       ('C05/C20/C11.complete_parser_exact', 'spec_try_parse_response(httparse::parse_response(input@, N as nat), r)'),
    ],
    head='broadcast use httparse::axiom_outcome_ok, axiom_str_bytes_empty;',
    rewrites=[
        ('N5', '.map_err(|e| Error::BadHeader(e.to_string()))?', '.map_err(|e: crate::http::Error| -> (e2: Error) ensures e2 is BadHeader { bad_header(e) })?'),
        ('N5', '.map_err(|_| Error::ResponseInvalidStatus)?', '.map_err(|_e: crate::http::InvalidStatusCode| -> (e2: Error) ensures e2 == Error::ResponseInvalidStatus { Error::ResponseInvalidStatus })?'),
        ('N9', '[httparse::EMPTY_HEADER; N]', 'httparse::empty_headers::<N>()'),
-       ('N11', '''for h in res.headers {
-        builder = builder.header(h.name, h.value);
-    }''', '''let mut idx: usize = 0;
+       ('N11', 'for h in res.headers {', '''let mut idx: usize = 0;
     while idx < res.headers.len() {
-        let h = &res.headers[idx];
-        builder = builder.header(h.name, h.value);
-        idx += 1;
-    }'''),
+        let h = &res.headers[idx];'''),
    ],
    before=[('let mut idx: usize = 0;', '''let ghost fields = httparse::parse_response(input@, N as nat)->Complete_1.fields;''')],
-   loops={1: {'kw': 'while', 'invariant': HDR_LOOP_INV, 'decreases': 'res.headers@.len() - idx'}},
+   loops={1: {'kw': 'while', 'invariant': HDR_LOOP_INV, 'decreases': 'res.headers@.len() - idx', 'body_tail': 'idx += 1;'}},
    )
 
 RAW('''
@@ -154,27 +149,16 @@ pub open spec fn spec_try_parse_request(o: Outcome, r: Result<Option<(usize, Req
 
 FN('try_parse_partial_response', props=['C05', 'C20', 'C12'], ret='r',
    ensures=[
-       ('C20.partial_parser_exact', 'spec_try_parse_partial(httparse::parse_response(input@, N as nat), r)'),
+       ('C05/C20.partial_parser_exact', 'spec_try_parse_partial(httparse::parse_response(input@, N as nat), r)'),
    ],
    head='broadcast use httparse::axiom_outcome_ok, axiom_str_bytes_empty;',
    rewrites=[
        ('N5', '.map_err(|e| Error::BadHeader(e.to_string()))?', '.map_err(|e: crate::http::Error| -> (e2: Error) ensures e2 is BadHeader { bad_header(e) })?'),
        ('N5', '.map_err(|_| Error::ResponseInvalidStatus)?', '.map_err(|_e: crate::http::InvalidStatusCode| -> (e2: Error) ensures e2 == Error::ResponseInvalidStatus { Error::ResponseInvalidStatus })?'),
        ('N9', '[httparse::EMPTY_HEADER; N]', 'httparse::empty_headers::<N>()'),
-       ('N11', '''for h in res.headers {
-        if h.name.is_empty() || h.value.is_empty() {
-            break;
-        }
-        builder = builder.header(h.name, h.value);
-    }''', '''let mut idx: usize = 0;
+       ('N11', 'for h in res.headers {', '''let mut idx: usize = 0;
     while idx < res.headers.len() {
-        let h = &res.headers[idx];
-        if h.name.is_empty() || h.value.is_empty() {
-            break;
-        }
-        builder = builder.header(h.name, h.value);
-        idx += 1;
-    }'''),
+        let h = &res.headers[idx];'''),
    ],
    before=[('let mut idx: usize = 0;', '''let ghost fields = match httparse::parse_response(input@, N as nat) { Outcome::Complete(_, p) => p.fields, Outcome::Partial(p) => p.fields, _ => Seq::<PField>::empty() };
     let ghost total = fields.len() as int;'''),
@@ -188,7 +172,7 @@ FN('try_parse_partial_response', props=['C05', 'C20', 'C12'], ret='r',
                   ('aux.partial.loop.slots', 'httparse::slots_hold(res.headers@, fields) && forall|i: int| total <= i < res.headers@.len() ==> (#[trigger] res.headers@[i]).is_empty_slot()'),
               ],
               'ensures': [('aux.partial.loop.exit', 'nonempty_prefix(fields, total) == idx')],
-              'body_head': 'broadcast use axiom_str_bytes_empty;',
+              'body_head': 'broadcast use axiom_str_bytes_empty;', 'body_tail': 'idx += 1;',
               'decreases': 'res.headers@.len() - idx'}},
    )
 
@@ -202,14 +186,9 @@ FN('try_parse_request', props=['C20', 'C12'], ret='r',
        ('N9', 'v.as_bytes()', 'str_as_bytes(v)'),
        ('N5', '.map_err(|_| Error::RequestInvalidMethod)?', '.map_err(|_e: crate::http::InvalidMethod| -> (e2: Error) ensures e2 == Error::RequestInvalidMethod { Error::RequestInvalidMethod })?'),
        ('N9', '[httparse::EMPTY_HEADER; N]', 'httparse::empty_headers::<N>()'),
-       ('N11', '''for h in req.headers {
-        builder = builder.header(h.name, h.value);
-    }''', '''let mut idx: usize = 0;
+       ('N11', 'for h in req.headers {', '''let mut idx: usize = 0;
     while idx < req.headers.len() {
-        let h = &req.headers[idx];
-        builder = builder.header(h.name, h.value);
-        idx += 1;
-    }'''),
+        let h = &req.headers[idx];'''),
    ],
    before=[('let mut idx: usize = 0;', '''let ghost fields = httparse::parse_request(input@, N as nat)->Complete_1.fields;''')],
    loops={1: {'kw': 'while',
@@ -219,5 +198,5 @@ FN('try_parse_request', props=['C20', 'C12'], ret='r',
                 Ok(hs) => Ok::<crate::http::request::BParts, ()>(crate::http::request::BParts { version: version, method: method, headers: hs }), Err(e) => Err(e) }'''),
                   ('aux.request.loop.slots', 'httparse::slots_hold(req.headers@, fields) && fields.len() == req.headers@.len()'),
               ],
-              'decreases': 'req.headers@.len() - idx'}},
+              'decreases': 'req.headers@.len() - idx', 'body_tail': 'idx += 1;'}},
    )
